@@ -27,6 +27,10 @@ CLAIMS = {
          "Registered names and parsed strings reach generation as a configuration value (C15 ties them to their strings).", "6 C05"),
  'C06': ("Unbounded theorem (iff): the model of ValidateOCRA returns (true,nil) exactly when the model of GenerateOCRA returns the submitted string; failure of generation gives (false, error); no panic.",
          "", "6 C06"),
+ 'C07': ("Unbounded theorem: for every byte string and every spelling of its RFC 4648 text (inductive relation: any letter case, 0..canonical '=' padding, surrounded by ASCII white space) "
+         "the model of DecodeSecret (TrimSpace, alphabet check, re-padding, ToUpper, a literal transcription of Go's base32 decode loop) returns exactly those bytes; the packing formulas are proved to be bit regrouping by finite sweeps (<= 2^15 cases each) lifted to all inputs; "
+         "hence all six entry points see the same key; characters outside the alphabet and lengths 1,3,6 mod 8 are rejected.",
+         "Padding in the middle is covered by the correspondence (malformed stream), not by a theorem. Unicode white space is trimmed by the model exactly as strings.TrimSpace does; the spelling relation of the theorem speaks of ASCII white space.", "6 C07"),
  'C14': ("Unbounded theorems (iff): SuiteConfig.Validate succeeds exactly for usable suites and OCRAInput.Validate exactly for admissible inputs (the property's sentence as a Prop); "
          "generation/validation get past admission exactly under both.",
          "Out-of-enum challenge formats / password hashes are outside the property; the model still mirrors the code there and the harness compares them.", "6 C14"),
